@@ -111,3 +111,35 @@ func SelectRecv(chans ...interface{}) int {
 		})
 	}
 }
+
+// SimTimer is what AfterFunc returns (only Stop is provided; a use of the result as *time.Timer
+// does not compile, which makes the check fail loudly).
+type SimTimer struct{ stopped, fired bool }
+
+// Stop prevents the function from running if it has not started yet.
+func (t *SimTimer) Stop() bool {
+	if t.fired || t.stopped {
+		return false
+	}
+	t.stopped = true
+	return true
+}
+
+// AfterFunc replaces time.AfterFunc: f runs in a task of its own once d of simulated time has
+// passed (the real one runs f in its own goroutine).
+func AfterFunc(d time.Duration, f func()) *SimTimer {
+	t := &SimTimer{}
+	w := active()
+	if w == nil {
+		return t
+	}
+	Go("time.AfterFunc", func() {
+		Sleep(d)
+		if t.stopped {
+			return
+		}
+		t.fired = true
+		f()
+	})
+	return t
+}
